@@ -467,3 +467,461 @@ Proof.
   eexists. unfold Consistent. repeat split; try (vm_compute; reflexivity).
   vm_compute. discriminate.
 Qed.
+
+(* ---- min / max over a non-empty list, and the bounding box in the usual sense ---- *)
+
+Lemma min_list_spec t : forall h,
+  min_list h t <= h /\ (forall x, In x t -> min_list h t <= x) /\ (min_list h t = h \/ In (min_list h t) t).
+Proof.
+  unfold min_list. induction t as [|a t IH]; intros h; cbn.
+  - split; [lia|]. split; [intros x []|auto].
+  - destruct (IH (Z.min h a)) as (H1 & H2 & H3). split; [lia|]. split.
+    + intros x [->|Hx]; [lia|auto].
+    + destruct H3 as [H3|H3]; auto.
+      destruct (Z.min_spec h a) as [[_ E]|[_ E]]; rewrite E in H3; [left|right; left]; congruence.
+Qed.
+
+Lemma max_list_spec t : forall h,
+  h <= max_list h t /\ (forall x, In x t -> x <= max_list h t) /\ (max_list h t = h \/ In (max_list h t) t).
+Proof.
+  unfold max_list. induction t as [|a t IH]; intros h; cbn.
+  - split; [lia|]. split; [intros x []|auto].
+  - destruct (IH (Z.max h a)) as (H1 & H2 & H3). split; [lia|]. split.
+    + intros x [->|Hx]; [lia|auto].
+    + destruct H3 as [H3|H3]; auto.
+      destruct (Z.max_spec h a) as [[_ E]|[_ E]]; rewrite E in H3; [right; left|left]; congruence.
+Qed.
+
+(** [child_extents] of a non-empty member list is the least rectangle that contains
+    every member rectangle: it contains them all and each of its four sides is
+    attained by some member. *)
+Lemma child_extents_bbox kids x y cx cy :
+  kids <> [] -> child_extents kids = (x, y, cx, cy) ->
+  (forall k, In k kids -> x <= sh_x k /\ sh_x k + sh_cx k <= x + cx /\
+                          y <= sh_y k /\ sh_y k + sh_cy k <= y + cy) /\
+  (exists k, In k kids /\ sh_x k = x) /\ (exists k, In k kids /\ sh_x k + sh_cx k = x + cx) /\
+  (exists k, In k kids /\ sh_y k = y) /\ (exists k, In k kids /\ sh_y k + sh_cy k = y + cy).
+Proof.
+  destruct kids as [|k0 r]; [congruence|]. intros _ H. cbn in H.
+  pose proof (min_list_spec (map sh_x r) (sh_x k0)) as (A1 & A2 & A3).
+  pose proof (min_list_spec (map sh_y r) (sh_y k0)) as (B1 & B2 & B3).
+  pose proof (max_list_spec (map (fun s => sh_x s + sh_cx s) r) (sh_x k0 + sh_cx k0)) as (C1 & C2 & C3).
+  pose proof (max_list_spec (map (fun s => sh_y s + sh_cy s) r) (sh_y k0 + sh_cy k0)) as (D1 & D2 & D3).
+  inversion H; subst; clear H.
+  split; [|split; [|split; [|split]]].
+  - intros k [<-|Hk]; [lia|].
+    pose proof (A2 _ (in_map sh_x _ _ Hk)). pose proof (B2 _ (in_map sh_y _ _ Hk)).
+    pose proof (C2 _ (in_map (fun s => sh_x s + sh_cx s) _ _ Hk)).
+    pose proof (D2 _ (in_map (fun s => sh_y s + sh_cy s) _ _ Hk)). lia.
+  - destruct A3 as [E|E]; [exists k0; cbn; auto|].
+    apply in_map_iff in E as (k & E & Hk). exists k; cbn; auto.
+  - destruct C3 as [E|E]; [exists k0; cbn; split; auto; lia|].
+    apply in_map_iff in E as (k & E & Hk). exists k; cbn; split; auto; lia.
+  - destruct B3 as [E|E]; [exists k0; cbn; auto|].
+    apply in_map_iff in E as (k & E & Hk). exists k; cbn; auto.
+  - destruct D3 as [E|E]; [exists k0; cbn; split; auto; lia|].
+    apply in_map_iff in E as (k & E & Hk). exists k; cbn; split; auto; lia.
+Qed.
+
+(* ================================================================== freeform *)
+
+Lemma fold_fmin_x ops : forall s, fold_left fmin_x ops s = min_list s (map fst (op_pts ops)).
+Proof. unfold min_list. induction ops as [|[x y|x y|] ops IH]; intros s; cbn; auto. Qed.
+Lemma fold_fmin_y ops : forall s, fold_left fmin_y ops s = min_list s (map snd (op_pts ops)).
+Proof. unfold min_list. induction ops as [|[x y|x y|] ops IH]; intros s; cbn; auto. Qed.
+Lemma fold_fmax_x ops : forall s, fold_left fmax_x ops s = max_list s (map fst (op_pts ops)).
+Proof. unfold max_list. induction ops as [|[x y|x y|] ops IH]; intros s; cbn; auto. Qed.
+Lemma fold_fmax_y ops : forall s, fold_left fmax_y ops s = max_list s (map snd (op_pts ops)).
+Proof. unfold max_list. induction ops as [|[x y|x y|] ops IH]; intros s; cbn; auto. Qed.
+
+(** The four extreme values are the minimum / maximum over all pen positions. *)
+Lemma pen_extents b :
+  (forall p, In p (pen_pts b) -> off_x b <= fst p <= hi_x b /\ off_y b <= snd p <= hi_y b) /\
+  (exists p, In p (pen_pts b) /\ fst p = off_x b) /\ (exists p, In p (pen_pts b) /\ fst p = hi_x b) /\
+  (exists p, In p (pen_pts b) /\ snd p = off_y b) /\ (exists p, In p (pen_pts b) /\ snd p = hi_y b).
+Proof.
+  unfold off_x, off_y, hi_x, hi_y, pen_pts.
+  rewrite fold_fmin_x, fold_fmin_y, fold_fmax_x, fold_fmax_y.
+  set (P := op_pts (fb_ops b)).
+  pose proof (min_list_spec (map fst P) (fb_sx b)) as (A1 & A2 & A3).
+  pose proof (min_list_spec (map snd P) (fb_sy b)) as (B1 & B2 & B3).
+  pose proof (max_list_spec (map fst P) (fb_sx b)) as (C1 & C2 & C3).
+  pose proof (max_list_spec (map snd P) (fb_sy b)) as (D1 & D2 & D3).
+  split; [|split; [|split; [|split]]].
+  - intros p [<-|Hp]; cbn; [lia|].
+    pose proof (A2 _ (in_map fst _ _ Hp)). pose proof (B2 _ (in_map snd _ _ Hp)).
+    pose proof (C2 _ (in_map fst _ _ Hp)). pose proof (D2 _ (in_map snd _ _ Hp)). lia.
+  - destruct A3 as [E|E]; [exists (fb_sx b, fb_sy b); cbn; auto|].
+    apply in_map_iff in E as (p & E & Hp). exists p; cbn; auto.
+  - destruct C3 as [E|E]; [exists (fb_sx b, fb_sy b); cbn; auto|].
+    apply in_map_iff in E as (p & E & Hp). exists p; cbn; auto.
+  - destruct B3 as [E|E]; [exists (fb_sx b, fb_sy b); cbn; auto|].
+    apply in_map_iff in E as (p & E & Hp). exists p; cbn; auto.
+  - destruct D3 as [E|E]; [exists (fb_sx b, fb_sy b); cbn; auto|].
+    apply in_map_iff in E as (p & E & Hp). exists p; cbn; auto.
+Qed.
+
+Lemma op_pts_shift ox oy ops :
+  op_pts (map (shift_op ox oy) ops) = map (fun p => (fst p - ox, snd p - oy)) (op_pts ops).
+Proof. induction ops as [|[x y|x y|] ops IH]; cbn; congruence. Qed.
+
+(** What convert_to_shape writes, in terms of the pen positions of the builder. *)
+Lemma convert_spec b ox oy f :
+  convert b ox oy = Ok f ->
+  mul_scale (off_x b) (fb_xs b) = Ok (f_left f - ox) /\
+  mul_scale (off_y b) (fb_ys b) = Ok (f_top f - oy) /\
+  mul_scale (hi_x b - off_x b) (fb_xs b) = Ok (f_width f) /\
+  mul_scale (hi_y b - off_y b) (fb_ys b) = Ok (f_height f) /\
+  f_w f = hi_x b - off_x b /\ f_h f = hi_y b - off_y b /\
+  f_path f = FMove (fb_sx b - off_x b) (fb_sy b - off_y b)
+             :: map (shift_op (off_x b) (off_y b)) (fb_ops b) /\
+  op_pts (f_path f) = map (fun p => (fst p - off_x b, snd p - off_y b)) (pen_pts b) /\
+  (forall p, In p (op_pts (f_path f)) -> 0 <= fst p <= f_w f /\ 0 <= snd p <= f_h f).
+Proof.
+  unfold convert, fdx, fdy.
+  destruct (mul_scale (off_x b) (fb_xs b)) as [l|] eqn:El; cbn; try discriminate.
+  destruct (mul_scale (off_y b) (fb_ys b)) as [t|] eqn:Et; cbn; try discriminate.
+  destruct (mul_scale (hi_x b - off_x b) (fb_xs b)) as [w|] eqn:Ew; cbn; try discriminate.
+  destruct (mul_scale (hi_y b - off_y b) (fb_ys b)) as [h|] eqn:Eh; cbn; try discriminate.
+  destruct (pos_ok (hi_x b - off_x b) && pos_ok (hi_y b - off_y b)); try discriminate.
+  intros H; inversion H; subst; clear H; cbn.
+  assert (Hpts : op_pts (FMove (fb_sx b - off_x b) (fb_sy b - off_y b)
+                         :: map (shift_op (off_x b) (off_y b)) (fb_ops b))
+                 = map (fun p => (fst p - off_x b, snd p - off_y b)) (pen_pts b)).
+  { cbn. rewrite op_pts_shift. reflexivity. }
+  split; [f_equal; lia|]. split; [f_equal; lia|].
+  split; [reflexivity|]. split; [reflexivity|]. split; [reflexivity|]. split; [reflexivity|].
+  split; [reflexivity|]. split; [exact Hpts|].
+  intros p Hp0.
+  assert (Hp : In p (map (fun p => (fst p - off_x b, snd p - off_y b)) (pen_pts b)))
+    by (rewrite <- Hpts; exact Hp0).
+  apply in_map_iff in Hp as (q & <- & Hq).
+  destruct (pen_extents b) as (Hall & _). destruct (Hall q Hq). cbn. lia.
+Qed.
+
+(* ---- the scaled integer: exact for an int scale, bounded error for a float scale ---- *)
+
+Lemma mul_scale_int v z : mul_scale v (SInt z) = Ok (v * z).
+Proof. reflexivity. Qed.
+
+Lemma rhe_bound n d : 0 < d -> - d <= 2 * (rhe n d * d - n) <= d.
+Proof.
+  intros Hd. unfold rhe.
+  pose proof (Z.div_mod n d ltac:(lia)) as E. pose proof (Z.mod_pos_bound n d Hd) as B.
+  set (q := n / d) in *. set (r := n mod d) in *.
+  destruct (Z.ltb_spec (2 * r) d); [nia|].
+  destruct (Z.ltb_spec d (2 * r)); [nia|].
+  destruct (Z.even q); nia.
+Qed.
+
+Lemma rhe_nonneg n d : 0 < d -> 0 <= n -> 0 <= rhe n d.
+Proof.
+  intros Hd Hn. unfold rhe.
+  pose proof (Z.div_pos n d Hn Hd).
+  destruct (2 * (n mod d) <? d); [lia|].
+  destruct (d <? 2 * (n mod d)); [lia|].
+  destruct (Z.even (n / d)); lia.
+Qed.
+
+Lemma fl53_small m e : Z.abs m < 2 ^ 53 -> fl53 (m, e) = (m, e).
+Proof.
+  intros H. unfold fl53.
+  assert (Z.log2 (Z.abs m) + 1 <= 53).
+  { destruct (Z.eq_dec (Z.abs m) 0) as [->|Hn]; [cbn; lia|].
+    assert (Z.log2 (Z.abs m) < 53) by (apply Z.log2_lt_pow2; lia). lia. }
+  destruct (Z.leb_spec (Z.log2 (Z.abs m) + 1) 53); [reflexivity|lia].
+Qed.
+
+Lemma dy_ovf_small m e : Z.abs m < 2 ^ 53 -> e <= 971 -> dy_ovf (m, e) = false.
+Proof.
+  intros H He. unfold dy_ovf.
+  destruct (Z.eqb_spec m 0) as [->|Hn]; [reflexivity|]. cbn [negb andb].
+  assert (Z.log2 (Z.abs m) < 53) by (apply Z.log2_lt_pow2; lia).
+  destruct (Z.leb_spec 1024 (Z.log2 (Z.abs m) + e)); [lia|reflexivity].
+Qed.
+
+(** When neither the conversion nor the product needs rounding (always the case for
+    EMU-sized extents and short mantissas) the result is the exact product rounded
+    half-even once. *)
+Lemma mul_scale_float_exact v m e :
+  Z.abs v < 2 ^ 53 -> Z.abs (v * m) < 2 ^ 53 -> e <= 971 ->
+  mul_scale v (SFlt m e) = Ok (dy_to_int (v * m, e)).
+Proof.
+  intros Hv Hp He. unfold mul_scale.
+  rewrite (fl53_small v 0 Hv). rewrite (dy_ovf_small v 0 Hv ltac:(lia)). cbn [fst snd].
+  rewrite Z.add_0_l. rewrite (fl53_small _ e Hp), (dy_ovf_small _ e Hp He). reflexivity.
+Qed.
+
+Lemma fl53_nonneg m e : 0 <= m -> 0 <= fst (fl53 (m, e)).
+Proof.
+  intros Hm. unfold fl53.
+  destruct (Z.leb_spec (Z.log2 (Z.abs m) + 1) 53); cbn; [lia|].
+  apply rhe_nonneg; auto. apply Z.pow_pos_nonneg; lia.
+Qed.
+
+Lemma dy_to_int_nonneg m e : 0 <= m -> 0 <= dy_to_int (m, e).
+Proof.
+  intros Hm. unfold dy_to_int.
+  destruct (Z.leb_spec 0 e).
+  - apply Z.mul_nonneg_nonneg; auto. apply Z.pow_nonneg; lia.
+  - apply rhe_nonneg; auto. apply Z.pow_pos_nonneg; lia.
+Qed.
+
+Definition scale_nonneg (s : scale) : Prop :=
+  match s with SInt z => 0 <= z | SFlt m _ => 0 <= m end.
+
+Lemma mul_scale_nonneg v s w : 0 <= v -> scale_nonneg s -> mul_scale v s = Ok w -> 0 <= w.
+Proof.
+  intros Hv Hs. destruct s as [z|m e]; cbn [scale_nonneg] in Hs; unfold mul_scale.
+  - intros H; inversion H; subst. apply Z.mul_nonneg_nonneg; auto.
+  - pose proof (fl53_nonneg v 0 Hv) as Ha.
+    destruct (fl53 (v, 0)) as [ma ea]; cbn [fst snd] in *.
+    destruct (dy_ovf (ma, ea)); try discriminate.
+    assert (Hm : 0 <= ma * m) by (apply Z.mul_nonneg_nonneg; auto).
+    pose proof (fl53_nonneg (ma * m) (ea + e) Hm) as Hp.
+    destruct (fl53 (ma * m, ea + e)) as [mp ep]; cbn [fst] in Hp.
+    destruct (dy_ovf (mp, ep)); try discriminate.
+    intros H; inversion H; subst. apply dy_to_int_nonneg; auto.
+Qed.
+
+(** The 53-bit rounding moves the mantissa by at most 2^-53 of itself. *)
+Lemma fl53_err_Z m e :
+  exists k, 0 <= k /\ snd (fl53 (m, e)) = e + k /\
+            2 ^ 53 * Z.abs (fst (fl53 (m, e)) * 2 ^ k - m) <= Z.abs m.
+Proof.
+  unfold fl53.
+  destruct (Z.leb_spec (Z.log2 (Z.abs m) + 1) 53) as [Hn|Hn].
+  - exists 0. cbn. split; [lia|]. split; [lia|]. rewrite Z.mul_1_r, Z.sub_diag. cbn. lia.
+  - set (k := Z.log2 (Z.abs m) + 1 - 53). exists k. cbn [fst snd].
+    assert (Hk : 0 < k) by (unfold k; lia).
+    split; [lia|]. split; [reflexivity|].
+    assert (Hd : 0 < 2 ^ k) by (apply Z.pow_pos_nonneg; lia).
+    pose proof (rhe_bound m (2 ^ k) Hd) as B.
+    assert (Hm : 0 < Z.abs m).
+    { destruct (Z.eq_dec (Z.abs m) 0) as [E|]; [rewrite E in Hn; cbn in Hn|]; lia. }
+    pose proof (Z.log2_spec _ Hm) as [L _].
+    assert (E : 2 ^ Z.log2 (Z.abs m) = 2 ^ k * 2 ^ 52).
+    { rewrite <- Z.pow_add_r by lia. f_equal. unfold k. lia. }
+    rewrite E in L. change (2 ^ 52) with 4503599627370496 in L.
+    change (2 ^ 53) with 9007199254740992.
+    set (P := 2 ^ k) in *. set (R := rhe m P) in *. lia.
+Qed.
+
+(* ---- float scale: the value-level error bound, in exact rationals ---- *)
+From Coq Require Import QArith Qabs Qpower Lqa.
+Open Scope Z_scope.
+
+(** The rational value of a dyadic number and of a scale argument. *)
+Definition two_p (e : Z) : Q := ((2 # 1) ^ e)%Q.
+Definition dval (x : dyad) : Q := (inject_Z (fst x) * two_p (snd x))%Q.
+Definition scale_val (s : scale) : Q :=
+  match s with SInt z => inject_Z z | SFlt m e => dval (m, e) end.
+
+Lemma two_p_pos e : (0 < two_p e)%Q.
+Proof. apply Qpower_0_lt. reflexivity. Qed.
+
+Lemma two_p_add a b : (two_p (a + b) == two_p a * two_p b)%Q.
+Proof. apply Qpower_plus. discriminate. Qed.
+
+Lemma two_p_Z k : 0 <= k -> (two_p k == inject_Z (2 ^ k))%Q.
+Proof. intros H. unfold two_p. rewrite (Zpower_Qpower 2 k H). reflexivity. Qed.
+
+Lemma Qabs_inject z : (Qabs (inject_Z z) == inject_Z (Z.abs z))%Q.
+Proof. unfold Qabs, inject_Z. reflexivity. Qed.
+
+Lemma fl53_err x : (Qabs (dval (fl53 x) - dval x) <= Qabs (dval x) * (1 # 2 ^ 53))%Q.
+Proof.
+  destruct x as [m e].
+  destruct (fl53_err_Z m e) as (k & Hk & Es & B).
+  destruct (fl53 (m, e)) as [m' e'] eqn:E. cbn [fst snd] in *. subst e'.
+  unfold dval; cbn [fst snd].
+  assert (Eq : (inject_Z m' * two_p (e + k) - inject_Z m * two_p e
+                == inject_Z (m' * 2 ^ k - m) * two_p e)%Q).
+  { rewrite two_p_add, (two_p_Z k Hk). unfold Z.sub. rewrite inject_Z_plus, inject_Z_opp, inject_Z_mult. ring. }
+  rewrite Eq. rewrite !Qabs_Qmult, !Qabs_inject.
+  rewrite (Qabs_pos (two_p e)) by (apply Qlt_le_weak, two_p_pos).
+  pose proof (two_p_pos e) as Ht.
+  assert (B' : (inject_Z (2 ^ 53) * inject_Z (Z.abs (m' * 2 ^ k - m)) <= inject_Z (Z.abs m))%Q).
+  { rewrite <- inject_Z_mult. rewrite <- Zle_Qle. exact B. }
+  set (a := inject_Z (Z.abs (m' * 2 ^ k - m))) in *. set (M := inject_Z (Z.abs m)) in *.
+  set (t := two_p e) in *.
+  change (inject_Z (2 ^ 53)) with (9007199254740992 # 1)%Q in B'.
+  change (1 # 2 ^ 53)%Q with (1 # 9007199254740992)%Q.
+  nra.
+Qed.
+
+Lemma dy_to_int_err x : (Qabs (inject_Z (dy_to_int x) - dval x) <= 1 # 2)%Q.
+Proof.
+  destruct x as [m e]. unfold dy_to_int, dval; cbn [fst snd].
+  destruct (Z.leb_spec 0 e) as [He|He].
+  - rewrite (two_p_Z e He), inject_Z_mult.
+    setoid_replace (inject_Z m * inject_Z (2 ^ e) - inject_Z m * inject_Z (2 ^ e))%Q with 0%Q by ring.
+    cbn. discriminate.
+  - set (d := 2 ^ (- e)).
+    assert (Hd : 0 < d) by (apply Z.pow_pos_nonneg; lia).
+    pose proof (rhe_bound m d Hd) as B. set (w := rhe m d) in *.
+    assert (Et : (two_p e * inject_Z d == 1)%Q).
+    { unfold d. rewrite <- (two_p_Z (- e)) by lia. rewrite <- two_p_add.
+      replace (e + - e) with 0 by lia. reflexivity. }
+    pose proof (two_p_pos e) as Ht. set (t := two_p e) in *.
+    destruct B as [B1 B2]. unfold Z.sub in B1, B2.
+    rewrite Zle_Qle in B1, B2.
+    repeat (rewrite inject_Z_plus in B1 || rewrite inject_Z_mult in B1 || rewrite inject_Z_opp in B1).
+    repeat (rewrite inject_Z_plus in B2 || rewrite inject_Z_mult in B2 || rewrite inject_Z_opp in B2).
+    change (inject_Z 2) with 2%Q in B1, B2.
+    set (D := inject_Z d) in *. set (W := inject_Z w) in *. set (M := inject_Z m) in *.
+    pose proof (Qmult_le_compat_r _ _ t B1 (Qlt_le_weak _ _ Ht)) as C1.
+    pose proof (Qmult_le_compat_r _ _ t B2 (Qlt_le_weak _ _ Ht)) as C2.
+    setoid_replace (2 * (W * D + - M) * t)%Q with (2 * (W * (t * D) - M * t))%Q in C1 by ring.
+    setoid_replace (2 * (W * D + - M) * t)%Q with (2 * (W * (t * D) - M * t))%Q in C2 by ring.
+    setoid_replace (- D * t)%Q with (- (t * D))%Q in C1 by ring.
+    setoid_replace (D * t)%Q with (t * D)%Q in C2 by ring.
+    rewrite Et in C1, C2.
+    apply Qabs_Qle_condition. split; lra.
+Qed.
+
+Lemma mul_scale_float_bound v m e w :
+  mul_scale v (SFlt m e) = Ok w ->
+  (Qabs (inject_Z w - inject_Z v * scale_val (SFlt m e))
+   <= (1 # 2) + Qabs (inject_Z v * scale_val (SFlt m e)) * (1 # 2 ^ 51))%Q.
+Proof.
+  unfold mul_scale. cbn [scale_val].
+  pose proof (fl53_err (v, 0)) as Ea.
+  destruct (fl53 (v, 0)) as [ma ea] eqn:Efa.
+  destruct (dy_ovf (ma, ea)); try discriminate. cbn [fst snd].
+  pose proof (fl53_err (ma * m, ea + e)) as Ep.
+  destruct (fl53 (ma * m, ea + e)) as [mp ep] eqn:Efp.
+  destruct (dy_ovf (mp, ep)); try discriminate.
+  intros H. assert (Hw : w = dy_to_int (mp, ep)) by congruence. clear H. subst w.
+  pose proof (dy_to_int_err (mp, ep)) as Ew.
+  assert (Ev : (dval (v, 0%Z) == inject_Z v)%Q).
+  { unfold dval; cbn [fst snd]. unfold two_p. rewrite Qpower_0_r. ring. }
+  assert (Em : (dval ((ma * m)%Z, (ea + e)%Z) == dval (ma, ea) * dval (m, e))%Q).
+  { unfold dval; cbn [fst snd]. rewrite two_p_add, inject_Z_mult. ring. }
+  rewrite Ev in Ea. rewrite Em in Ep.
+  set (W := inject_Z (dy_to_int (mp, ep))) in *. set (P := dval (mp, ep)) in *.
+  set (A := dval (ma, ea)) in *. set (S := dval (m, e)) in *. set (V := inject_Z v) in *.
+  (* W - V S = (W - P) + (P - A S) + (A - V) S *)
+  assert (T : (Qabs (W - V * S) <= Qabs (W - P) + Qabs (P - A * S) + Qabs ((A - V) * S))%Q).
+  { setoid_replace (W - V * S)%Q with ((W - P) + (P - A * S) + (A - V) * S)%Q by ring.
+    eapply Qle_trans; [apply Qabs_triangle|]. apply Qplus_le_l. apply Qabs_triangle. }
+  rewrite Qabs_Qmult in T. rewrite !Qabs_Qmult in Ep. rewrite Qabs_Qmult.
+  assert (TA : (Qabs A <= Qabs V + Qabs (A - V))%Q).
+  { setoid_replace A with (V + (A - V))%Q at 1 by ring. apply Qabs_triangle. }
+  pose proof (Qabs_nonneg V). pose proof (Qabs_nonneg S). pose proof (Qabs_nonneg (A - V)).
+  pose proof (Qabs_nonneg A).
+  set (aV := Qabs V) in *. set (aS := Qabs S) in *. set (d := Qabs (A - V)) in *.
+  set (aA := Qabs A) in *. set (x1 := Qabs (W - P)) in *. set (x2 := Qabs (P - A * S)) in *.
+  set (x := Qabs (W - V * S)) in *.
+  change (1 # 2 ^ 53)%Q with (1 # 9007199254740992)%Q in *.
+  change (1 # 2 ^ 51)%Q with (1 # 2251799813685248)%Q.
+  pose proof (Qmult_le_compat_r _ _ aS Ea H0) as P1.
+  pose proof (Qmult_le_compat_r _ _ aS TA H0) as P2.
+  pose proof (Qmult_le_0_compat _ _ H H0) as P3.
+  lra.
+Qed.
+
+(** What int(round(v * scale)) is allowed to be: the exact product for an int scale;
+    within one half plus 2^-51 of the exact product for a float scale. *)
+Definition scaled_ok (v : Z) (s : scale) (w : Z) : Prop :=
+  match s with
+  | SInt z => w = v * z
+  | SFlt _ _ =>
+      (Qabs (inject_Z w - inject_Z v * scale_val s)
+       <= (1 # 2) + Qabs (inject_Z v * scale_val s) * (1 # 2 ^ 51))%Q
+  end.
+
+Lemma mul_scale_ok v s w : mul_scale v s = Ok w -> scaled_ok v s w.
+Proof.
+  destruct s as [z|m e]; intros H.
+  - cbn in *. congruence.
+  - apply mul_scale_float_bound; auto.
+Qed.
+
+(** The freeform sentence of the property, for every builder, origin and scale. *)
+Lemma freeform_main b ox oy f :
+  convert b ox oy = Ok f ->
+  let P := pen_pts b in
+  (* the extents are the extreme coordinates of the pen positions *)
+  ((forall p, In p P -> off_x b <= fst p <= hi_x b /\ off_y b <= snd p <= hi_y b) /\
+   (exists p, In p P /\ fst p = off_x b) /\ (exists p, In p P /\ fst p = hi_x b) /\
+   (exists p, In p P /\ snd p = off_y b) /\ (exists p, In p P /\ snd p = hi_y b)) /\
+  (* position = origin + scaled minimum, size = scaled (maximum - minimum) *)
+  scaled_ok (off_x b) (fb_xs b) (f_left f - ox) /\
+  scaled_ok (off_y b) (fb_ys b) (f_top f - oy) /\
+  scaled_ok (hi_x b - off_x b) (fb_xs b) (f_width f) /\
+  scaled_ok (hi_y b - off_y b) (fb_ys b) (f_height f) /\
+  (scale_nonneg (fb_xs b) -> 0 <= f_width f) /\
+  (scale_nonneg (fb_ys b) -> 0 <= f_height f) /\
+  (* the path: extents, children in order, every point inside the extents *)
+  f_w f = hi_x b - off_x b /\ f_h f = hi_y b - off_y b /\
+  f_path f = FMove (fb_sx b - off_x b) (fb_sy b - off_y b)
+             :: map (shift_op (off_x b) (off_y b)) (fb_ops b) /\
+  op_pts (f_path f) = map (fun p => (fst p - off_x b, snd p - off_y b)) P /\
+  (forall p, In p (op_pts (f_path f)) -> 0 <= fst p <= f_w f /\ 0 <= snd p <= f_h f).
+Proof.
+  intros H. destruct (convert_spec _ _ _ _ H) as (Hl & Ht & Hw & Hh & Ew & Eh & Ep & Epts & Hin).
+  pose proof (pen_extents b) as Hext.
+  assert (Hdx : 0 <= hi_x b - off_x b /\ 0 <= hi_y b - off_y b).
+  { destruct Hext as (Hall & _). specialize (Hall (fb_sx b, fb_sy b) (or_introl eq_refl)).
+    cbn in Hall. lia. }
+  split; [exact Hext|].
+  split; [eapply mul_scale_ok; eauto|]. split; [eapply mul_scale_ok; eauto|].
+  split; [eapply mul_scale_ok; eauto|]. split; [eapply mul_scale_ok; eauto|].
+  split; [intros Hs; eapply mul_scale_nonneg; [| exact Hs | exact Hw]; lia|].
+  split; [intros Hs; eapply mul_scale_nonneg; [| exact Hs | exact Hh]; lia|].
+  auto 10.
+Qed.
+
+(** Non-vacuity: a builder with two contours, a tie vertex, negative and repeated
+    vertices, placed at a negative origin with the non-uniform scale (0.1, 3). *)
+Definition fb_example : fbuilder :=
+  mkFb (rhe 5 2) (-3) (SFlt 3602879701896397 (-55)) (SInt 3)
+       [FLine 10 (-3); FLine 10 40; FLine (-7) 40; FClose; FMove 100 100; FLine 10 40; FLine 105 (-20)].
+
+Lemma fb_example_converts :
+  convert fb_example (-1000) 25
+  = Ok (mkFs (-1001) (-35) 11 360 112 120
+             [FMove 9 17; FLine 17 17; FLine 17 60; FLine 0 60; FClose; FMove 107 120; FLine 17 60;
+              FLine 112 0]).
+Proof. vm_compute. reflexivity. Qed.
+
+(** Non-vacuity for the connector history theorems. *)
+Lemma conn_example :
+  conn_run_ok (add_cxn 0 0 10 5) [SetBX 20; SetEY (-3); SetEX 25; SetBY (-9); SetBX 20]
+  = Some (mkConn 20 (-9) 5 6 false false).
+Proof. vm_compute. reflexivity. Qed.
+
+(** Non-vacuity for the group theorems: a nest of depth four filled from the inside,
+    every step safe, consistent at the end. *)
+Definition g_empty : shape := Grp gxf0 [].
+Definition nest_ops : list gop :=
+  [mkGop [] g_empty false; mkGop [0%nat] g_empty false; mkGop [0%nat; 0%nat] g_empty false;
+   mkGop [0%nat; 0%nat; 0%nat] g_empty false;
+   mkGop [0%nat; 0%nat; 0%nat; 0%nat] (Leaf (-100) 50 10 20) true;
+   mkGop [0%nat; 0%nat; 0%nat] (Leaf 7 (-7) 3 3) true;
+   mkGop [0%nat] (Leaf 1000 1000 5 5) true;
+   mkGop [] (Leaf 1 2 3 4) false].
+
+Lemma nest_example :
+  slide_run [] nest_ops
+  = Ok [Grp (mkG (-100) (-7) 1105 1012 (-100) (-7) 1105 1012)
+          [Grp (mkG (-100) (-7) 110 77 (-100) (-7) 110 77)
+             [Grp (mkG (-100) (-7) 110 77 (-100) (-7) 110 77)
+                [Grp (mkG (-100) 50 10 20 (-100) 50 10 20) [Leaf (-100) 50 10 20];
+                 Leaf 7 (-7) 3 3]];
+           Leaf 1000 1000 5 5];
+        Leaf 1 2 3 4].
+Proof. vm_compute. reflexivity. Qed.
+
+Lemma nest_example_safe : run_safe [] nest_ops.
+Proof.
+  unfold nest_ops. cbn [run_safe].
+  repeat match goal with
+         | |- _ /\ _ => split
+         | |- gop_safe _ _ => unfold gop_safe, Consistent; cbn; split; [reflexivity|auto]
+         | |- match gstep ?s ?o with _ => _ end =>
+             let r := eval vm_compute in (gstep s o) in change (gstep s o) with r; cbn beta iota
+         | |- True => exact I
+         end.
+Qed.
